@@ -99,14 +99,38 @@ def check(ctx):
     ctx.analysed(qui)
     names = ['c', 'p', 'e1', 'e2', 'o']
     bad_c, bad_q = [], []
+    from rules.norm import Norm, decision, cond_value, Unknown
+    kdk = p.enum('engine::PieceKind')
+    csk = p.enum('engine::Castling')
+
+    def decide2(f, env):
+        val = {'castling(move)': csk['NO_CASTLING'] if env['c'] else csk['KING_CASTLING'],
+               'promotion(move)': kdk['NO_PIECE_KIND'] if env['p'] else kdk['QUEEN'],
+               ('eq',) + tuple(sorted(['enpassant_square()', 'to(move)'])): env['e1'],
+               'make_piece_kind(piece_at(from(move)))': kdk['PAWN'] if env['e2'] else kdk['KNIGHT'],
+               'get_piece_kind(piece_at(from(move)))': kdk['PAWN'] if env['e2'] else kdk['KNIGHT'],
+               'piece_at(to(move))': 0 if env['o'] else 4,
+               'make_piece_kind(piece_at(to(move)))': kdk['NO_PIECE_KIND'] if env['o'] else kdk['ROOK'],
+               'get_piece_kind(piece_at(to(move)))': kdk['NO_PIECE_KIND'] if env['o'] else kdk['ROOK']}
+        nm = Norm(f)
+        nm.val = val
+        try:
+            r = decision(f, val, nm)
+            if r is None:
+                raise AnalysisBroken('DECISION: %s falls off the end' % f.name)
+            return cond_value(nm, kids(r)[0], val)
+        except Unknown as u:
+            raise AnalysisBroken('DECISION: %s depends on `%s`, which is not one of the five atoms' % (f.name, u))
     for vals in itertools.product([False, True], repeat=5):
         env = dict(zip(names, vals))
+        # the atoms of the table are stated as in ATOMS: c = "not castling", p = "no promotion", o = "target empty"
         ep = env['e1'] and env['e2']
-        spec_c = (not env['c']) and (env['o'] or ep)
-        spec_q = env['c'] or ((not env['p']) and (not ep) and (not env['o']))
-        if decide(cap, env) != spec_c:
+        castling_, promo_, occ_ = not env['c'], not env['p'], not env['o']
+        spec_c = (not castling_) and (occ_ or ep)
+        spec_q = castling_ or ((not promo_) and (not ep) and (not occ_))
+        if decide2(cap, env) != spec_c:
             bad_c.append(env)
-        if decide(qui, env) != spec_q:
+        if decide2(qui, env) != spec_q:
             bad_q.append(env)
     ctx.ob('C15.R1.capture-table', 'move_is_capture', not bad_c,
            'move_is_capture == not castling and (target occupied or (pawn and target is the e.p. square)) on all 32 atom rows',
@@ -222,31 +246,65 @@ def check(ctx):
            'discovered checks are computed on the occupancy with the from-square vacated and the to-square occupied', site=gc.loc())
     ctx.ob('C15.R4.ep-victim', 'move_gives_check', ok_v and gv,
            'for an e.p. capture the captured pawn (rank of from, file of to) is also removed before the discovered-check test', site=gc.loc())
-    disc = [canon(gc, kids(n)[0]).replace(' ', '') for n in gc.all_nodes() if n['k'] == 'IfStmt'
-            and 'slider_attack(piece_position' in canon(gc, kids(n)[0]).replace(' ', '')]
-    okd = len(disc) >= 4 and all(('BISHOP,QUEEN' in d) or ('ROOK,QUEEN' in d) for d in disc)
+    # discovered checks: every `return true` taken on a slider test pairs the diagonal (line) slider look-up from the enemy king with
+    # the mover's bishops/queens (rooks/queens); read through named conditions, helpers and lambdas
+    import re as _re
+    from rules.norm import Norm as _Nd
+    nmd = _Nd(gc, inline=False, env={'__targs__': 1})
+    disc_found = []
     pair = True
     for n in gc.all_nodes():
-        if n['k'] == 'IfStmt':
-            c = kids(n)[0]
-            sl = [x['callee']['targs'] for x in walk(c) if x.get('callee', {}).get('n') == 'engine::slider_attack']
-            ks = [short(x['ref']['n']) for x in walk(c) if x.get('ref', {}).get('k') == 'Enum' and short(x['ref']['n']) in ('BISHOP', 'ROOK')]
-            if sl and 'pieces(' in canon(gc, c, inline=False):
-                pair = pair and [short(sl[0])] == ks
+        if n['k'] != 'IfStmt':
+            continue
+        then = kids(n)[1]
+        rt = then if then['k'] == 'ReturnStmt' else (kids(then)[0] if then['k'] == 'CompoundStmt' and len(kids(then)) == 1 else None)
+        if rt is None or rt['k'] != 'ReturnStmt' or strip_casts(kids(rt)[0]).get('cv') != 1:
+            continue
+        for alt in nmd.disj(kids(n)[0]):
+            for a_ in alt:
+                if a_[0] != 'truthy' or 'slider_attack<' not in str(a_[1]) or 'pieces(' not in str(a_[1]):
+                    continue
+                m1 = _re.search(r'slider_attack<(\w+)>\(king_sq,', a_[1])
+                m2 = _re.search(r'pieces\(color\(\),(\d+),%d\)' % kdk['QUEEN'], a_[1])
+                if not m1 or not m2 or not a_[2]:
+                    pair = False
+                    continue
+                kname = {kdk['BISHOP']: 'BISHOP', kdk['ROOK']: 'ROOK'}.get(int(m2.group(1)))
+                disc_found.append((m1.group(1), kname))
+                pair = pair and m1.group(1) == kname and kname in ('BISHOP', 'ROOK')
+    okd = len(disc_found) >= 4 and {k_ for k_, _ in disc_found} == {'BISHOP', 'ROOK'}
     ctx.ob('C15.R4.discovered', 'move_gives_check', okd and pair,
            'discovered checks look from the enemy king along diagonals for own bishops/queens and along lines for own rooks/queens', site=gc.loc())
-    # castling arm: rook destination f/d file on the mover's home rank
-    rk = [n for n in gc.all_nodes() if n['k'] == 'VarDecl' and n.get('name') == 'my_rook_sq']
-    okc = len(rk) == 1 and canon(gc, kids(rk[0])[0]).replace(' ', '') == \
-        'make_square(((color()==WHITE)?RANK_1:RANK_8),((castling(move)&KING_CASTLING)?FILE_F:FILE_D))'
-    rets = [n for n in gc.all_nodes() if n['k'] == 'ReturnStmt' and 'my_rook_sq' in canon(gc, kids(n)[0], inline=False)]
-    okc = okc and len(rets) == 1 and 'slider_attack(my_rook_sq,blockers)' in canon(gc, kids(rets[0])[0], inline=False).replace(' ', '')
-    cb = [n for n in gc.all_nodes() if n['k'] == 'VarDecl' and n.get('name') == 'blockers' and kids(n) and 'old_king_sq' in canon(gc, kids(n)[0], inline=False)]
-    okc = okc and len(cb) == 1 and sorted(x for x in canon(gc, kids(cb[0])[0], inline=False).replace(' ', '').replace('(', '').replace(')', '').split('^')) == \
-        sorted(['pieces', 'square_bbold_king_sq', 'square_bbold_rook_sq', 'square_bbmy_king_sq', 'square_bbmy_rook_sq'])
+    # castling arm, per colour and wing on normal forms: the rook on its destination square attacks the enemy king on the occupancy
+    # with king and rook moved
+    from rules.norm import Norm as _Nm, decision as _dec, Unknown as _Unk
+    sqe = p.enum('engine::Square')
+    pce = p.enum('engine::Piece')
+    okc = True
+    why_c = ''
+    for c_ in (0, 1):
+        for wing, code in (('K', csk['KING_CASTLING']), ('Q', csk['QUEEN_CASTLING'])):
+            val = {'color()': c_, 'castling(move)': code}
+            nmc = _Nm(gc, env={'__targs__': 1})
+            nmc.val = val
+            try:
+                r = _dec(gc, val, nmc)
+            except _Unk as u:
+                raise AnalysisBroken('C15: move_gives_check branches on `%s` before the castling arm' % u)
+            got = nmc.s(kids(r)[0]) if r is not None else None
+            rk_ = '1' if c_ == 0 else '8'
+            files = {'K': ('E', 'H', 'G', 'F'), 'Q': ('E', 'A', 'C', 'D')}[wing]
+            rook_from, king_to, rook_to = [sqe['SQ_%s%s' % (f_, rk_)] for f_ in files[1:]]
+            own_king = 'square_bb(piece_position(%d))' % pce['W_KING' if c_ == 0 else 'B_KING']
+            enemy_king = 'square_bb(piece_position(%d))' % pce['B_KING' if c_ == 0 else 'W_KING']
+            occ = '(' + '^'.join(sorted([str(1 << rook_from), str(1 << king_to), str(1 << rook_to), 'pieces()', own_king])) + ')'
+            want = '(' + '&'.join(sorted(['slider_attack<ROOK>(%d,%s)' % (rook_to, occ), enemy_king])) + ')'
+            if got != want:
+                okc = False
+                why_c = ' — %s %s-side: found %s, expected %s' % ('White' if c_ == 0 else 'Black', wing, got, want)
     ctx.ob('C15.R4.castling-arm', 'move_gives_check', okc,
            'a castling move gives check iff the rook on its destination (f/d file of the home rank) attacks the enemy king on the '
-           'occupancy with king and rook relocated', site=gc.loc(rk[0]) if rk else gc.loc())
+           'occupancy with king and rook relocated' + why_c, site=gc.loc())
 
     # ---- R5 consumers -----------------------------------------------------------------------------------------------
     for fn_name in ('engine::Search::search', 'engine::Search::quiescence_search'):
